@@ -24,7 +24,14 @@ def profiles(thorough):
                 w={"connfn": 12, "newK": 8, "newK0": 2, "asgKC": 6, "mvK": 6, "masgK": 6, "swapK": 5, "relK": 5, "discK": 4, "delK": 6,
                    "connectedK?": 6, "blockedK?": 2, "blockK": 2, "connected?": 8, "cpC": 4, "size?": 6, "emit": 5, "disc": 2},
                 bw={"delK": 4, "discK": 3, "relK": 2, "mvK": 2, "newK": 2, "throw": 0})
-    return [p]
+    # scoped connections that manage the connection of an *empty* slot (connected() is false, yet disconnect() removes
+    # the entry): no owning functors in this profile, so empty slots can be connected
+    q = Profile(nT=1, nS=3, nG=2, nC=6, nK=4, specs={"fn": 6, "trk": 1}, body_prob=0.15, empty_slot_connect=0.5,
+                len=(15, 50 if not thorough else 120),
+                w={"mkS0": 6, "conn": 10, "connfn": 6, "newK": 10, "newK0": 3, "asgKC": 7, "mvK": 5, "masgK": 8, "swapK": 4, "relK": 7,
+                   "discK": 4, "delK": 7, "connectedK?": 4, "connected?": 6, "disc": 3, "size?": 10, "emptyG?": 3, "emit": 3, "delS": 1},
+                bw={"delK": 3, "discK": 2, "relK": 2, "throw": 0})
+    return [p, p, q]
 
 
 def correspondence(ctx):
